@@ -2,6 +2,9 @@ package extract
 
 import (
 	"fmt"
+	"go/ast"
+	"go/token"
+	"go/types"
 	"strings"
 )
 
@@ -49,6 +52,144 @@ func init() {
 			return "", err
 		}
 		sb.WriteString("\ndef electLeaderCalls : List String := " + LeanStrList(CallSeq(FindFunc(el, "replicaLeaderElector", "ElectLeader"))) + "\n")
+		// event delivery inside the master and state publishing (state_manager.go): statement shapes of
+		// EmitEvent (blocking send), consumeEvent (receive -> processEvent) and syncState (marshal, Put,
+		// error returned), and the capacity of the events channel
+		_, sm, err := ParseFile(repo, "coordinator/master/state_manager.go")
+		if err != nil {
+			return "", err
+		}
+		for _, fn := range []string{"EmitEvent", "consumeEvent", "syncState"} {
+			fd := FindFunc(sm, "stateManager", fn)
+			if fd == nil {
+				return "", fmt.Errorf("stateManager.%s not found", fn)
+			}
+			sb.WriteString("\ndef " + strings.ToLower(fn[:1]) + fn[1:] + "Shape : List String := " + LeanStrList(c18StmtShape(fd.Body.List)) + "\n")
+		}
+		capv := int64(-1)
+		ast.Inspect(FindFunc(sm, "", "NewStateManager"), func(n ast.Node) bool {
+			if ce, ok := n.(*ast.CallExpr); ok {
+				if id, ok := ce.Fun.(*ast.Ident); ok && id.Name == "make" && len(ce.Args) == 2 {
+					if _, ok := ce.Args[0].(*ast.ChanType); ok {
+						if v, ok := evalInt(ce.Args[1], nil, 0); ok {
+							capv = v
+						}
+					}
+				}
+			}
+			return true
+		})
+		if capv < 0 {
+			return "", fmt.Errorf("events channel capacity not found in NewStateManager")
+		}
+		fmt.Fprintf(&sb, "\ndef eventsCap : Int := %s\n", LeanInt(capv))
 		return sb.String(), nil
 	}})
+}
+
+// c18StmtShape renders the control/statement skeleton of a statement list as a flat token list
+// (logging and metric calls are left out: they do not take part in delivery or publishing).
+func c18StmtShape(stmts []ast.Stmt) []string {
+	var out []string
+	isNoise := func(e ast.Expr) bool {
+		t := types.ExprString(e)
+		return strings.Contains(t, ".logger.") || strings.Contains(t, "tatistics.")
+	}
+	rhs := func(e ast.Expr) string {
+		switch x := e.(type) {
+		case *ast.CallExpr:
+			return "call " + exprName(x.Fun)
+		case *ast.UnaryExpr:
+			if x.Op == token.ARROW {
+				return "recv " + types.ExprString(x.X)
+			}
+		}
+		return types.ExprString(e)
+	}
+	var simple func(s ast.Stmt) string
+	simple = func(s ast.Stmt) string {
+		switch x := s.(type) {
+		case *ast.SendStmt:
+			return "send " + types.ExprString(x.Chan) + " <- " + types.ExprString(x.Value)
+		case *ast.AssignStmt:
+			var l, r []string
+			for _, e := range x.Lhs {
+				l = append(l, types.ExprString(e))
+			}
+			for _, e := range x.Rhs {
+				r = append(r, rhs(e))
+			}
+			return "assign " + strings.Join(l, ",") + " = " + strings.Join(r, ",")
+		case *ast.ExprStmt:
+			return rhs(x.X)
+		case *ast.IncDecStmt:
+			return "incdec " + types.ExprString(x.X)
+		}
+		return fmt.Sprintf("stmt %T", s)
+	}
+	var walk func(l []ast.Stmt)
+	walk = func(l []ast.Stmt) {
+		for _, s := range l {
+			switch x := s.(type) {
+			case *ast.ExprStmt:
+				if isNoise(x.X) {
+					continue
+				}
+				out = append(out, simple(x))
+			case *ast.DeferStmt:
+				out = append(out, "defer "+exprName(x.Call.Fun))
+			case *ast.GoStmt:
+				out = append(out, "go "+exprName(x.Call.Fun))
+			case *ast.ReturnStmt:
+				var r []string
+				for _, e := range x.Results {
+					r = append(r, rhs(e))
+				}
+				out = append(out, strings.TrimSpace("return "+strings.Join(r, ",")))
+			case *ast.IfStmt:
+				out = append(out, "if")
+				if x.Init != nil {
+					out = append(out, simple(x.Init))
+				}
+				out = append(out, "cond "+types.ExprString(x.Cond), "{")
+				walk(x.Body.List)
+				out = append(out, "}")
+				if x.Else != nil {
+					out = append(out, "else", "{")
+					if b, ok := x.Else.(*ast.BlockStmt); ok {
+						walk(b.List)
+					} else {
+						walk([]ast.Stmt{x.Else})
+					}
+					out = append(out, "}")
+				}
+			case *ast.ForStmt:
+				out = append(out, "for", "{")
+				walk(x.Body.List)
+				out = append(out, "}")
+			case *ast.RangeStmt:
+				out = append(out, "range "+types.ExprString(x.X), "{")
+				walk(x.Body.List)
+				out = append(out, "}")
+			case *ast.SelectStmt:
+				out = append(out, "select", "{")
+				for _, cc := range x.Body.List {
+					c := cc.(*ast.CommClause)
+					if c.Comm == nil {
+						out = append(out, "default")
+					} else {
+						out = append(out, "case "+simple(c.Comm))
+					}
+					walk(c.Body)
+				}
+				out = append(out, "}")
+			case *ast.BlockStmt:
+				walk(x.List)
+			default:
+				out = append(out, simple(s))
+			}
+		}
+	}
+	walk(stmts)
+	return out
 }
